@@ -67,6 +67,30 @@ def run_json(ctx, prop):
     results = ctx.validate_traces("TraceJson.tla", "TraceJson.cfg", sorted(glob.glob(os.path.join(tdir, "*.ndjson"))))
     tviol, tdrift = _trace_violations(ctx, results, prop)
     violations = [x for x in rep["violations"] if x["property"] == prop] + tviol + [x for x in trep["violations"] if x["property"] == prop]
+    # documents nested up to the cap (objects, arrays, mixed), whole and truncated: run-length form, TraceBomb.tla
+    cap = 4096
+    bcases = []
+    for shape, units in (("arr", (2049, 4095, 4096)), ("obj", (2049, 3000, 4096)), ("mixed", (1025, 1500, 2048)), ("pad", (3000,))):
+        ul = {"arr": 1, "obj": 5, "mixed": 6, "pad": 2}[shape]
+        for n in units:
+            bcases += [(shape, n, True, 0, "Detect"), (shape, n, True, ul * (n // 2), "Detect"), (shape, n, False, 0, "json"), (shape, n, True, 0, "DetectReader")]
+    for n in (3, 4095, 4096, 4097, 4098, 5000):   # malformed at depth: a comma where the innermost value must stand
+        bcases += [("arrc", n, True, 0, "Detect"), ("arrc", n, True, 0, "json"), ("arrc", n, True, n + 3, "Detect"), ("arrc", n, True, 2 * n + 1, "json")]
+    brecs = run_bombs(ctx, bcases, core.NCPU)
+    btf = os.path.join(ctx.scratch, "deep.ndjson")
+    with open(btf, "w") as f:
+        for r in brecs:
+            f.write(json.dumps({k: v for k, v in r.items() if k != "died"}) + "\n")
+    for r in ctx.validate_traces("TraceBomb.tla", "TraceBomb.cfg", [btf]):
+        for t in r["tuples"]:
+            if t[0] == "VIOLATION" and t[1] == prop:
+                rec = brecs[t[2] - 1]
+                v = dict(property=prop, kind="deep-document", limit=rec["limit"], record=rec,
+                         input_text="shape=%s units=%d closed=%s entry=%s" % (rec["shape"], rec["n"], rec["closed"], rec["entry"]),
+                         detail="TraceBomb.tla: nesting within the cap, class reported %r (%s)" % (rec["cls"], rec.get("mime")))
+                v["key"] = "%s|deep|%s|%d|%s|%s|%d" % (prop, rec["shape"], rec["n"], rec["closed"], rec["entry"], rec["limit"])
+                violations.append(v)
+    cov["deep_documents"] = len(brecs)
     nvec = rep["violation_counts"].get(prop, 0)
     cov.update(
         evaluations=rep["evaluations"] + trep["evaluations"],
@@ -149,6 +173,30 @@ def c10(ctx):
     return core.finish(ctx, violations, cov, assumptions)
 
 
+
+def run_bombs(ctx, cases, workers):
+    """Run nesting-bomb cases, one child process each; a child that dies or hangs is a record with returned=False."""
+    import concurrent.futures
+    import subprocess
+    exe = ctx.build_harness()
+
+    def run(case):
+        shape, n, closed, lim, entry = case
+        cmd = [exe, "bomb", "-shape", shape, "-n", str(n), "-closed=%s" % ("true" if closed else "false"), "-limit", str(lim), "-entry", entry]
+        try:
+            p = subprocess.run(cmd, capture_output=True, text=True, timeout=300)
+        except subprocess.TimeoutExpired:
+            return dict(ev="bomb", shape=shape, n=n, closed=closed, limit=lim, entry=entry, returned=False, maxlvl=0, cls="", parses=0, mime="", wall_ms=300000, died="timeout")
+        if p.returncode == 0 and p.stdout.strip():
+            return json.loads(p.stdout.strip().splitlines()[-1])
+        if p.returncode == 2 and "stack" not in p.stderr and "overflow" not in p.stderr and "signal" not in p.stderr:
+            raise core.Infra("bomb driver failed: %s %s" % (cmd, p.stderr[-500:]))
+        return dict(ev="bomb", shape=shape, n=n, closed=closed, limit=lim, entry=entry, returned=False, maxlvl=0, cls="", parses=0, mime="", wall_ms=0, died=p.stderr[-300:])
+
+    with concurrent.futures.ThreadPoolExecutor(max_workers=workers) as ex:
+        return list(ex.map(run, cases))
+
+
 BOMB_SHAPES = ["arr", "obj", "mixed", "pad"]
 
 
@@ -190,26 +238,7 @@ def c16(ctx):
             cases.append((shape, 1000000, True, 0, entry))
     if not quick:
         cases.append(("arr", 1000000, True, 4294967295, "DetectReader"))  # 4 GiB buffer, run with the others
-    import concurrent.futures
-    import subprocess
-    exe = ctx.vdrive_bin
-
-    def run(case):
-        shape, n, closed, lim, entry = case
-        cmd = [exe, "bomb", "-shape", shape, "-n", str(n), "-closed=%s" % ("true" if closed else "false"), "-limit", str(lim), "-entry", entry]
-        try:
-            p = subprocess.run(cmd, capture_output=True, text=True, timeout=300)
-        except subprocess.TimeoutExpired:
-            return dict(ev="bomb", shape=shape, n=n, closed=closed, limit=lim, entry=entry, returned=False, maxlvl=0, cls="", parses=0, mime="", wall_ms=300000, died="timeout")
-        if p.returncode == 0 and p.stdout.strip():
-            return json.loads(p.stdout.strip().splitlines()[-1])
-        if p.returncode == 2 and "stack" not in p.stderr and "overflow" not in p.stderr and "signal" not in p.stderr:
-            raise core.Infra("bomb driver failed: %s %s" % (cmd, p.stderr[-500:]))
-        return dict(ev="bomb", shape=shape, n=n, closed=closed, limit=lim, entry=entry, returned=False, maxlvl=0, cls="", parses=0, mime="", wall_ms=0, died=p.stderr[-300:])
-
-    workers = 4 if not quick else core.NCPU
-    with concurrent.futures.ThreadPoolExecutor(max_workers=workers) as ex:
-        recs = list(ex.map(run, cases))
+    recs = run_bombs(ctx, cases, 4 if not quick else core.NCPU)
     tf = os.path.join(ctx.scratch, "bomb.ndjson")
     with open(tf, "w") as f:
         for r in recs:
